@@ -14,12 +14,17 @@ Spec == Init /\ [][Next]_l
 \* plain reader semantics along the walk: position before step k
 RECURSIVE PosBefore(_, _)
 PosBefore(c, k) == IF k = 1 THEN 0 ELSE c.steps[k-1].off        \* the offset the real object reported after the previous step
+\* the file the cache is over at step k: the content given with the last reset, else the initial one
+RECURSIVE FileAt(_, _)
+FileAt(c, k) == IF k = 0 THEN c.file ELSE IF c.steps[k].op = "reset" THEN c.steps[k].bytes ELSE FileAt(c, k - 1)
 StepViol(c, k) ==
   LET st == c.steps[k]
       p == PosBefore(c, k)
-      size == Len(c.file)
-  IN IF st.op = "read"
-     THEN (IF st.bytes = SubSeq(c.file, p + 1, p + Len(st.bytes)) THEN {} ELSE {"ReadsEqualPlainReader"})
+      file == FileAt(c, k - 1)
+      size == Len(file)
+  IN IF st.op = "reset" THEN (IF st.off = 0 /\ ~st.eof THEN {} ELSE {"ResetRewinds"})
+     ELSE IF st.op = "read"
+     THEN (IF st.bytes = SubSeq(file, p + 1, p + Len(st.bytes)) THEN {} ELSE {"ReadsEqualPlainReader"})
      \cup (IF Len(st.bytes) = (IF p + st.a <= size THEN st.a ELSE size - p) THEN {} ELSE {"ReadLength"})
      \cup (IF Len(st.bytes) < st.a => st.eof THEN {} ELSE {"ShortReadReportsEOF"})
      \cup (IF st.off = p + Len(st.bytes) THEN {} ELSE {"OffsetAdvances"})
